@@ -253,6 +253,9 @@ def safe_sig(obj):
 _CALLS = {}
 
 
+REANNOTATE_FORMS = ('kwo>poso', 'poso>kwo', 'auto', 'start', 'end')
+
+
 def calls_for(shape):
     names = tuple(p[0] for p in shape) + ('zz',)
     npos = sum(1 for p in shape if p[1] in (PO, POK))
@@ -314,6 +317,35 @@ def eval_case(shape, form, sel, st, replaying=False):
                          {'form': form, 'placement': 'direct'})
             return
     st.inc('evaluations', n_calls)
+    # annotate on top re-prepares the translator: the advertised parameters and the call behaviour stay what they were
+    if g is not f and form in REANNOTATE_FORMS:
+        try:
+            g2 = M.annotate('R')(g)
+            sig2 = inspect.signature(g2)
+        except Exception as e:  # noqa
+            st.violation('signature-retrieval-raises', case, dict(base, route='annotate on top', error='%s: %s' % (type(e).__name__, e)),
+                         {'form': form, 'route': 'reannotated'})
+            return
+        if not sig_matches(sig2, exp) or sig2.return_annotation != 'R':
+            st.violation('advertised-signature-wrong', case,
+                         dict(base, route='annotate on top', advertised=str(sig2), expected=show(exp) + " -> 'R'"),
+                         {'form': form, 'route': 'reannotated'})
+            return
+        n2 = 0
+        for a, k in calls_for(shape):
+            if callsem.po_by_keyword(exp, k):
+                continue
+            n2 += 1
+            want = callsem.run_call(twin, a, k)
+            got = callsem.run_call(g2, a, k)
+            if not callsem.same_outcome(want, got):
+                st.violation('call-behaviour-differs-from-advertised-signature', case,
+                             dict(base, advertised=show(exp), call=callsem.describe_call(a, k),
+                                  native_twin=repr(want)[:300], decorated=repr(got)[:300], placement='after annotate on top'),
+                             {'form': form, 'placement': 'reannotated'})
+                return
+        st.inc('evaluations', n2)
+        st.inc('reannotated_cases')
     # stacking must leave the inner decorated object as it was: decorate again, keep the inner one, stack, re-check it
     if form in ('kwo>poso', 'poso>kwo') and sel[0] and sel[1]:
         f2 = callsem.valued_func(shape, annotate=True, cache=False)
